@@ -298,6 +298,18 @@ func CheckStateResponse(
 		allEvents = append(allEvents, event)
 	}
 
+	// The auth and state events of one response belong to one room. Every event is only ever
+	// compared with its own auth events below, so an event of another room (with that room's
+	// auth chain shipped along) would otherwise fill a slot of this room's state.
+	for _, event := range allEvents {
+		if event.RoomID().String() != allEvents[0].RoomID().String() {
+			return nil, nil, fmt.Errorf(
+				"gomatrixserverlib: events of different rooms (%q and %q) in one response",
+				allEvents[0].RoomID().String(), event.RoomID().String(),
+			)
+		}
+	}
+
 	// Check if the events pass signature checks.
 	logger.Infof("Checking event signatures for %d events of room state", len(allEvents))
 	errors := VerifyAllEventSignatures(ctx, allEvents, keyRing, userIDForSender)
